@@ -10,6 +10,7 @@ CONSTANTS
   HalvingInterval = 2
   MaxMoney = 30
   Horizon <- NoHorizon
+  RulesOff = {}
   Known <- NoKnown
   Keys = {1, 2}
   Miners = {1}
@@ -33,5 +34,6 @@ INVARIANT I_C04_Head
 INVARIANT I_C04_Tips
 INVARIANT I_C04_Index
 INVARIANT I_C05
+INVARIANT I_C06_TamperRejected
 PROPERTY A_C04_HeadOnlyUp
 PROPERTY A_C03_Immutable
